@@ -193,8 +193,6 @@ def __init__(self, market_info, tokens=None, data=None, data_path="./data"):
     self._tokens = set()
     if tokens is not None:
         self.add_token(tokens)
-    else:
-        self.add_token([])
 '''
 REF_GMX_ADD_TOKEN = '''
 def add_token(self, token_info):
@@ -462,8 +460,8 @@ def run(model, tier="quick"):
                   FX, opaque=["getOutputAmount"])
     formula_check(res, model, V + "get_market_balance", REF_V2_BALANCE, "v2 value = shares * pool value / supply",
                   opaque=["getTokenAmountsFromGM"])
-    effects_check(res, model, G + "__init__", REF_GMX_INIT, "v1 market state: fee constants 25 / 60 bp, token registry is a set",
-                  ["add_token", "__init__"])
+    effects_check(res, model, G + "__init__", REF_GMX_INIT, "v1 market state: fee constants 25 / 60 bp, token registry is a set holding the given tokens",
+                  ["add", "__init__"])
     effects_check(res, model, G + "add_token", REF_GMX_ADD_TOKEN, "token registry: set semantics (a token counts once)", ["add"])
     SP, PU = "SwapPriceUtils.", "PricingUtils."
     formula_check(res, model, PU + "applyImpactFactor", REF_IMPACT_FACTOR, "impact(diff) = diff^exponent * factor")
